@@ -23,6 +23,7 @@ fn prop_def(id: &str) -> Option<PropDef> {
         "C08" => PropDef { parts: props::c08::parts(), rule: props::c08::RULE, assumptions: props::c08::ASSUMPTIONS, literal: None },
         "C17" => PropDef { parts: props::c17::parts(), rule: props::c17::RULE, assumptions: props::c17::ASSUMPTIONS, literal: None },
         "C01" => PropDef { parts: props::c01::parts(), rule: props::c01::RULE, assumptions: props::c01::ASSUMPTIONS, literal: Some(props::c01::check_literal) },
+        "C02" => PropDef { parts: props::c02::parts(), rule: props::c02::RULE, assumptions: props::c02::ASSUMPTIONS, literal: None },
         _ => return None,
     })
 }
